@@ -86,8 +86,8 @@ def step (p : Params) (sc : Scen) (s : SSt) : List SSt :=
     let callsDone := s.remP = 0 ∧ s.remX = 0 ∧ i.kp = .idle
     ((stepInt p i).map (observe s))
     -- calls
-    ++ (if s.remP > 0 then (envStart i).map fun t => { observe s t with remP := s.remP - 1, cur := 1 } else [])
-    ++ (if s.remX > 0 then (envStart i).map fun t => { observe s t with remX := s.remX - 1, cur := 2 } else [])
+    ++ (if s.remP > 0 then (envStart p i).map fun t => { observe s t with remP := s.remP - 1, cur := 1 } else [])
+    ++ (if s.remX > 0 then (envStart p i).map fun t => { observe s t with remX := s.remX - 1, cur := 2 } else [])
     ++ (if s.cur = 2 then (envCancel i).map (observe s) else [])
     -- Close
     ++ (if ph.close = 1 ∨ (ph.close = 2 ∧ callsDone) then (envClose p i).map (observe s) else [])
